@@ -547,6 +547,93 @@ func init() {
 		},
 	})
 
+	// S6: a message that does not fit the head block of the write / receive queue, queued around the moment the
+	// consumer has drained the queue.
+	vexp.Register(&vexp.Scenario{
+		Name: "c03.S6.large-after-small", Prop: "C03", Also: []string{"C04"},
+		Bounds: func(thorough bool) vexp.Bounds {
+			if thorough {
+				return vexp.Bounds{P: 2, F: 1, E: 1}
+			}
+			return vexp.Bounds{P: 1, F: 1, E: 0}
+		},
+		Configs: func(thorough bool) []map[string]int {
+			var out []map[string]int
+			for _, big := range []int{1000, 1100, 2000, 5000} {
+				for _, settle := range []int{0, 1} {
+					out = append(out, map[string]int{"big": big, "settle": settle, "window": 1 << 20, "writeq": 1 << 20, "rbuf": 4096, "wbuf": 4096})
+				}
+			}
+			return out
+		},
+		MaxSteps: 100000,
+		Doc:      "default-like options; the client sends a 10-byte message and then one of 1000..5000 bytes (beyond the 1024-byte head block of the byte queues), either back to back or after everything has drained (settle=1); the server echoes both; every message must be delivered WITHOUT any further traffic (a message parked in a second queue block must still wake the send loop / the receiver)",
+		Body: func(x *vexp.Ctx) {
+			big := x.P("big", 2000)
+			var got, echo [][]byte
+			hDone := false
+			handler := HandleFunc(func(ctx Context, ch Channel) status.Status {
+				rctx := async.NoContext()
+				for {
+					m, st := ch.Receive(rctx)
+					if !st.OK() {
+						break
+					}
+					got = append(got, append([]byte{}, m...))
+					if st := ch.Send(rctx, m); !st.OK() {
+						break
+					}
+				}
+				hDone = true
+				return status.OK
+			})
+			w := newWide(x, handler)
+			ctx := async.NoContext()
+			ch, st := w.cli.Channel(ctx)
+			if !st.OK() {
+				x.Fail("Channel fails on a healthy connection", "%v", st)
+				return
+			}
+			msgs := [][]byte{vPayload(0, 0, 0, 10), vPayload(0, 0, 1, big)}
+			cDone := false
+			vsched.GoNamed("client", func() {
+				defer func() { cDone = true }()
+				for i, m := range msgs {
+					if st := ch.Send(ctx, m); !st.OK() {
+						return
+					}
+					if i == 0 && x.P("settle", 0) == 1 {
+						r, st := ch.Receive(ctx)
+						if !st.OK() {
+							return
+						}
+						echo = append(echo, append([]byte{}, r...))
+					}
+				}
+				for len(echo) < len(msgs) {
+					r, st := ch.Receive(ctx)
+					if !st.OK() {
+						return
+					}
+					echo = append(echo, append([]byte{}, r...))
+				}
+			})
+			vsched.Join("both messages echoed without further traffic", func() bool { return cDone })
+			for i, m := range msgs {
+				if i >= len(got) || !bytes.Equal(got[i], m) {
+					x.Fail("message not delivered to the handler", "message %d of %d bytes", i, len(m))
+				}
+				if i >= len(echo) || !bytes.Equal(echo[i], m) {
+					x.Fail("echo not delivered to the caller", "message %d of %d bytes", i, len(m))
+				}
+			}
+			ch.Free()
+			vsched.Join("handler done", func() bool { return hDone })
+			x.Outcome = fmt.Sprintf("got=%d echo=%d", len(got), len(echo))
+			w.shutdown()
+		},
+	})
+
 	// S2: payload on the opening frame, on the closing frame, and SendAndClose on a never-opened channel (open+close batch).
 	vexp.Register(&vexp.Scenario{
 		Name: "c03.S2.open-close-payloads", Prop: "C03",
